@@ -53,10 +53,10 @@ def num_inputs(rng, pool, maxlen=7, **kw):
     return ins
 
 
-def ops_table():
+def ops_table(values=None):
     import reactivex as rx
     from reactivex import operators as ops
-    pool = Pool(HASHABLE_POOL)
+    pool = Pool(values if values is not None else HASHABLE_POOL)
     npool = NumPool()
     K = pool.K
     idenc = lambda v: gz(pool.id(v))
